@@ -674,6 +674,8 @@ def main(tier, replay=None):
         "the model is hand-written after the macros of gfq.inl; polynomial product/remainder inside the table builder are specification-level (Poly1Dom is property C08)",
         "GFqExtFast q-adic model (QadicModel.v): the tables _low2log/_high2log are modelled by their specification (residue polynomial of the index digits); the floating-point quotient d/p of init(double) is the exact floor; callers' double arithmetic on integers below 2^53 is exact",
         "Extension inv/div (ExtModel.v, Poly1Dom::invmod): partial correctness proved; totality observed per call",
+        "array forms: the location model (Model.v arrL) takes the element operands as values; that each loop body of gfq.inl reads them before the macro writes r[i] is read off the source (table in Model.v) and tested by the aliased `arra` lines",
+        "second macro set of gfq.inl (__GIVARO_COUNT__): not modelled separately; a harness compiled with -D__GIVARO_COUNT__ must answer every line of 15 prescribed fields exactly as the standard build does",
         "harness/c05_gfq.C, harness/c05_ext.C, checks/C05.py (generators, python F_p[X]/(f) oracle, brute-force irreducibility/primitivity)",
         "g++ / x86-64 for the implementation side",
     ]
@@ -1136,6 +1138,7 @@ def main(tier, replay=None):
                        "every scalar call form on all elements/pairs (q<=64) or boundary+random operands, every array form with sz in {0,1,2,n}, dotprod, init/convert; "
                        "every field object obtained in one of 7 ways (rotated: constructed in place / copy / assigned over a default-constructed object, over a field of other characteristic-degree-bit length, to itself, twice / copy kept while the source is overwritten); "
                        "Extension<GFqDom|Modular|GF2>, GFqExt, GFqExtFast (q-adic init/convert/maxdot incl. worst-case products) and GF2 (complete sweep) in the background part; degree-1 polynomial constructors in own processes; "
+                       "every array form with every aliasing of its array arguments (rx, ry, xy, rxy; all operand pairs in one call for q <= 16), dotprod with a == b; 15 prescribed fields re-run on a -D__GIVARO_COUNT__ build; "
                        "non-trivial = first operand non-zero") % limit
     chk.cov["traces_validated_against_impl"] = ncorr
     chk.cov["fields"] = len(fields)
